@@ -100,6 +100,10 @@ func trimTrailingSpacesEdits(content string, mapper *lsputil.PositionMapper, pos
 		if len(trimmed) == len(line) {
 			continue
 		}
+		// blanks behind an unterminated quote are part of the quoted symbol
+		if strings.Count(trimmed, "\"")%2 == 1 {
+			continue
+		}
 		// blanks behind a lone carriage return stay: without them the carriage return would
 		// become part of the line terminator and the next run would trim the line again
 		if strings.HasSuffix(trimmed, "\r") {
